@@ -6,6 +6,7 @@ import (
 	"fmt"
 	"log/slog"
 	"runtime"
+	stdsync "sync"
 	"testing"
 	"testing/synctest"
 	"time"
@@ -65,6 +66,7 @@ type observed struct {
 }
 
 type recorder struct {
+	mu       stdsync.Mutex // the watchdog reads rounds/cur from outside the bubble
 	rounds   []observed
 	cur      observed
 	nrounds  int // Sleep calls to let through before ending the goroutine
@@ -82,10 +84,13 @@ func (r *recorder) Drift(d time.Duration) time.Duration {
 	return time.Duration(r.driftPer * int64(d/r.tau))
 }
 func (r *recorder) Sleep(d time.Duration) {
+	r.mu.Lock()
 	r.touched = true
 	r.rounds = append(r.rounds, r.cur)
 	r.cur = observed{}
-	if len(r.rounds) >= r.nrounds {
+	last := len(r.rounds) >= r.nrounds
+	r.mu.Unlock()
+	if last {
 		runtime.Goexit()
 	}
 	time.Sleep(d)
@@ -93,8 +98,10 @@ func (r *recorder) Sleep(d time.Duration) {
 
 // recording adjustments.Adjustment
 func (r *recorder) Do(offset time.Duration) {
+	r.mu.Lock()
 	r.touched = true
 	r.cur.dos = append(r.cur.dos, offset)
+	r.mu.Unlock()
 }
 
 // slog.Handler
@@ -105,7 +112,6 @@ func (r *recorder) Handle(_ context.Context, rec slog.Record) error {
 	if rec.Message != "correcting clock" {
 		return nil
 	}
-	r.touched = true
 	l := logged{}
 	seen := 0
 	rec.Attrs(func(a slog.Attr) bool {
@@ -129,7 +135,10 @@ func (r *recorder) Handle(_ context.Context, rec slog.Record) error {
 		return true
 	})
 	l.ok = seen == 6
+	r.mu.Lock()
+	r.touched = true
 	r.cur.logs = append(r.cur.logs, l)
+	r.mu.Unlock()
 	return nil
 }
 
@@ -141,9 +150,27 @@ type result struct {
 
 // runOnce executes the real sync.Run in a synctest bubble until the fake clock
 // has seen nrounds Sleep calls (or Run panicked).
+//
+// hungAfter is REAL time for one behaviour (normally well under 10 ms): virtual
+// time only advances when every goroutine of the bubble is blocked, so a loop
+// that spins keeps the bubble, and this driver, from ever finishing. onHang is
+// then called with what was observed so far (it records the pending round,
+// flushes the trace and ends the process: a spinning goroutine cannot be stopped).
+const hungAfter = 30 * time.Second
+
 func runOnce(t *testing.T, cfg sync.Config, driftPer int64, tau time.Duration, nrounds int,
-	refs, peers []*scriptedClock) result {
+	refs, peers []*scriptedClock, onHang func(done []observed, pending observed)) result {
 	res := result{rec: &recorder{nrounds: max(nrounds, 1), driftPer: driftPer, tau: tau}}
+	if onHang != nil {
+		wd := time.AfterFunc(hungAfter, func() { // created outside the bubble: real time
+			res.rec.mu.Lock()
+			done := append([]observed{}, res.rec.rounds...)
+			pending := res.rec.cur
+			res.rec.mu.Unlock()
+			onHang(done, pending)
+		})
+		defer wd.Stop()
+	}
 	prometheus.DefaultRegisterer = prometheus.NewRegistry()
 	rc := make([]client.ReferenceClock, len(refs))
 	for i := range refs {
